@@ -284,6 +284,20 @@ func checkStep(r *Real, t *Table, ref *refState, op Op, obs, prev *StepObs, tips
 	P := opt.Prop
 	ok := obs.Res == "ok"
 	b := op.Branch
+	cHazard := ok && r.Cfg.Key != "this" && compactHazard(r.Cfg, prev, op)
+	isNew := func(id int) bool {
+		if prev == nil {
+			return true
+		}
+		for _, pb := range prev.Branches {
+			for _, o := range pb.Objs {
+				if o.ID == id {
+					return false
+				}
+			}
+		}
+		return true
+	}
 	prevLive := func(name int) ([]int, bool) {
 		if prev == nil {
 			return nil, true
@@ -476,6 +490,9 @@ func checkStep(r *Real, t *Table, ref *refState, op Op, obs, prev *StepObs, tips
 					// starts, see listerCheck): partitions are then cut in the wrong place
 					key = "C14:lister-order:empty-bytes-key"
 				}
+				if cHazard && nb.Name == b && key != "C14:this-key:scan-order" {
+					key = CompactHazardKey
+				}
 				fail("oracle", key, fmt.Sprintf("after %s scan of b%d is out of pool-key order at %d: %s then %s", op, nb.Name, j, t.Vals[nb.Scan[j-1]].Text, t.Vals[nb.Scan[j]].Text), step)
 				break
 			}
@@ -506,6 +523,8 @@ func checkStep(r *Real, t *Table, ref *refState, op Op, obs, prev *StepObs, tips
 				key := fmt.Sprintf("%s:seek-index:%s", P, op.Kind)
 				if r.Cfg.Key == "this" {
 					key = "C14:this-key:seek-index"
+				} else if cHazard && isNew(o.ID) {
+					key = CompactHazardKey
 				}
 				fail("oracle", key, fmt.Sprintf("after %s object %d of b%d: %s", op, o.ID, nb.Name, what), step)
 			}
@@ -513,6 +532,8 @@ func checkStep(r *Real, t *Table, ref *refState, op Op, obs, prev *StepObs, tips
 				key := fmt.Sprintf("%s:object-meta:%s", P, op.Kind)
 				if r.Cfg.Key == "this" && o.Min == "n" && o.Max == "n" && o.Count == len(o.Toks) {
 					key = "C14:this-key:object-meta"
+				} else if cHazard && isNew(o.ID) {
+					key = CompactHazardKey
 				}
 				fail("oracle", key, fmt.Sprintf("after %s object %d of b%d: %s", op, o.ID, nb.Name, what), step)
 			}
@@ -696,6 +717,34 @@ func emptyBytesHazard(cfg Cfg, b *BranchObs) bool {
 	}
 	return false
 }
+
+// compactHazard: op is a compaction whose input objects (as observed before the step) have the
+// empty-bytes lister hazard among themselves.  The compaction reads them through the same
+// lister / slicer / merge pipeline as a scan and writes the result with the SortedWriter,
+// which trusts its input: partitions cut in the wrong place then become a data object whose
+// values are not in pool-key order.
+func compactHazard(cfg Cfg, prev *StepObs, op Op) bool {
+	if op.Kind != "compact" || prev == nil {
+		return false
+	}
+	pb := findBranch(prev, op.Branch)
+	if pb == nil {
+		return false
+	}
+	in := setOf(op.IDs)
+	sub := BranchObs{}
+	for _, o := range pb.Objs {
+		if in[o.ID] {
+			sub.Objs = append(sub.Objs, o)
+		}
+	}
+	return emptyBytesHazard(cfg, &sub)
+}
+
+// CompactHazardKey reports what a compaction of objects with the empty-bytes lister hazard
+// wrote (same defect as lister-order:empty-bytes-key; the pool is damaged, so the history
+// stops there).
+const CompactHazardKey = "C14:lister-order:empty-bytes-key:compact"
 
 // seekCheck: the seek index entries partition the object's values (val_off / val_cnt chain
 // from 0 to count, no empty entry) and every entry's [min,max] is exactly the key range of the
@@ -889,6 +938,12 @@ func CompareModel(c *hlib.Ctx, o *Outcome, opt Options, ans string) {
 			}
 		}
 		if d := CompareStep(o.T, o.H.Cfg, o.Obs[i], mo[i], opt.Commits, hazard); d != "" {
+			if i > 0 && o.H.Cfg.Key != "this" && compactHazard(o.H.Cfg, o.Obs[i-1], o.H.Ops[i]) {
+				// the real compaction read its objects in map-iteration order (known finding
+				// lister-order:empty-bytes-key) and may have cut its partitions differently:
+				// nothing after this step is comparable
+				return
+			}
 			h := *o.H
 			h.Ops = h.Ops[:i+1]
 			c.Fail("correspondence", fmt.Sprintf("%s:model:%s", opt.Prop, o.H.Ops[i].Kind), fmt.Sprintf("step %d %s: %s | history: %s", i, o.H.Ops[i], d, h.Summary()), &h)
